@@ -23,6 +23,12 @@ Definition err_print (e : rerr) : bytes :=
 Definition result_print (r : list bytes * rerr) : bytes :=
   bs "chunks=" ++ list_print (map (fun d => 120 :: hex_encode d) (fst r)) ++ bs " err=" ++ err_print (snd r).
 
+(* pad: the projected observables of WritePadding(n) - how many bytes it puts on the stream, the count it
+   returns, and what the reader (under the given script) makes of them; chunking and fill bytes are left free *)
+Definition pad_print (n : N) (sc : script) : bytes :=
+  let w := write_padding n in
+  bs "len=" ++ dec_print (blen w) ++ bs " ret=" ++ dec_print n ++ [SP] ++ result_print (read_stream w sc).
+
 Definition run (args : list bytes) : bytes :=
   match args with
   | [op; a] =>
@@ -35,7 +41,7 @@ Definition run (args : list bytes) : bytes :=
         | None => ERR_BADCASE
         end
       else if beq op (bs "pad") then
-        match dec_parse a with Some n => hex_encode (write_padding n) | None => ERR_BADCASE end
+        match dec_parse a with Some n => pad_print n [] | None => ERR_BADCASE end
       else if beq op (bs "max") then
         match dec_parse a with Some n => dec_print (max_data_for_size n) | None => ERR_BADCASE end
       else if beq op (bs "budget") then
@@ -52,7 +58,12 @@ Definition run (args : list bytes) : bytes :=
         | None => ERR_BADCASE end
       else ERR_BADCASE
   | [op; a; b] =>
-      if beq op (bs "dec") then
+      if beq op (bs "pad") then
+        match dec_parse a, list_parse script_entry_parse b with
+        | Some n, Some sc => pad_print n sc
+        | _, _ => ERR_BADCASE
+        end
+      else if beq op (bs "dec") then
         match payload_parse a, list_parse script_entry_parse b with
         | Some s, Some sc => result_print (read_stream s sc)
         | _, _ => ERR_BADCASE
